@@ -5,6 +5,7 @@ package inventory
 // Machine-checked contracts (comment-only; compiled to nothing). Checked by /verif/bin/stfsvc.
 
 //@ func Stat
+//@   param onHeader is HeaderCallback
 //@   property C13
 //@   modifies *, knownDir[name]
 //@   ghostset knownDir[name] := result1 == nil && result0.Typeflag == 53
